@@ -205,6 +205,51 @@ def run_programs(ctx, res):
         res.sample({'file': cases[0][0].decode('utf-8'), 'keys': cases[0][1]})
 
 
+def run_ex_programs(ctx, res):
+    """ex substitutions over multi-byte text (patterns that match the empty string, classes, groups):
+    the written file must stay valid UTF-8."""
+    rng = ctx.rng.fork('exprogs')
+    vi = vlib.build_vi()
+    pats = ['a', 'é', 'x*', '.', '中', '[aé]', '(é|b)', '\\<', '$', '^', 'b*', '.?', '[^a]', '(.)(.)', 'é*', '😀', '[[:alpha:]]*']
+    reps = ['', 'Q', 'é', '\\0\\0', '€', '\\1', '\\2\\1', '-', '中\\0']
+    cases = []
+    for i in range(300 if ctx.quick else 5000):
+        cmds = []
+        for j in range(rng.range(1, 4)):
+            addr = rng.choice(['', '%', '1', '$', '1,2', '2,$'])
+            cmds.append('%ss/%s/%s/%s' % (addr, rng.choice(pats), rng.choice(reps), rng.choice(['', 'g', 'g', 'g'])))
+        cases.append((gen_text(rng), cmds))
+
+    def one(case, cmds=None):
+        text, c = case
+        c = c if cmds is None else cmds
+        script = ('\n'.join(c) + '\nw! out\nq!\n').encode('utf-8')
+        return vlib.run_ex(vi, script, files={'f': text}, args=['f'], readback=['out'], timeout=20)
+
+    def invalid(b):
+        try:
+            b.decode('utf-8')
+            return False
+        except UnicodeDecodeError:
+            return True
+
+    outs = vlib.pmap(lambda c: one(c), cases)
+    for case, r in zip(cases, outs):
+        res.evaluations += 1
+        res.count('ex substitute programs')
+        out = r.files.get('out')
+        if out is None:
+            continue
+        res.nontriv('ex:' + '|'.join(case[1]))
+        if invalid(out):
+            cmds = vlib.shrink(case[1], lambda a: (lambda o: o is not None and invalid(o))(one(case, a).files.get('out')))
+            res.violation({'what': 'an ex substitute turned valid UTF-8 text into invalid UTF-8',
+                           'input': {'file': case[0].hex(), 'script': cmds},
+                           'observed': one(case, cmds).files.get('out').hex(), 'expected': 'valid UTF-8'})
+    if cases:
+        res.sample({'file': cases[0][0].decode('utf-8'), 'script': cases[0][1]})
+
+
 def run(ctx):
     res = ctx.res
     rng = ctx.rng
@@ -323,3 +368,4 @@ def run(ctx):
     res.extra['exhaustive_scalars'] = bool(sweep)
     if not ctx.replay:
         run_programs(ctx, res)
+        run_ex_programs(ctx, res)
